@@ -31,6 +31,7 @@ func main() {
 	seed := flag.Int64("seed", 1, "seed for -random")
 	out := flag.String("out", "", "directory for C08-known-findings.json / C09-known-findings.json (empty: do not write)")
 	verbose := flag.Bool("v", false, "print every key")
+	dump := flag.String("dump", "", "print the program with this origin (e.g. random:402) and exit")
 	bodyFlag := flag.String("body", "", "only show what both oracles say about this template body (Go-quoted or raw) and its reduction")
 	flag.Parse()
 	if *bodyFlag != "" {
@@ -42,6 +43,10 @@ func main() {
 		if strings.HasPrefix(b, "package ") {
 			src = b
 		}
+		if strings.HasPrefix(b, "@/") {
+			fb, _ := os.ReadFile(b[1:])
+			src = string(fb)
+		}
 		for _, o := range []tsrc.Oracle{c08.Check, c09.Check} {
 			out := o(src)
 			fmt.Printf("accepted=%v changed=%v class=%q\n  %s\n", out.Accepted, out.Changed, out.Class, out.Detail)
@@ -52,7 +57,7 @@ func main() {
 						return ""
 					}
 					return x.Class
-				})
+				}, nil)
 				fmt.Printf("  reduced (%d tests, lift=%v): %s\n", red.Tests, red.Lift, red.Key)
 			}
 		}
@@ -86,15 +91,26 @@ func main() {
 			progs = append(progs, tsrc.Prog{Origin: fmt.Sprintf("mutant:%d", i), Src: tsrc.Mutate(r, bases[r.Intn(len(bases))])})
 		}
 	}
+	if *dump != "" {
+		for _, p := range progs {
+			if p.Origin == *dump {
+				fmt.Printf("%s\n", p.Src)
+				os.WriteFile("/tmp/dump.templ", []byte(p.Src), 0o644)
+			}
+		}
+		return
+	}
 	for _, prop := range []struct {
 		id     string
 		oracle tsrc.Oracle
 		what   string
-	}{{"C08", c08.Check, "formatting changes the program"}, {"C09", c09.Check, "formatting is not idempotent"}} {
+		weaker func(from, to string) bool
+	}{{"C08", c08.Check, "formatting changes the program", c08.Weaker}, {"C09", c09.Check, "formatting is not idempotent", c09.Weaker}} {
 		t0 := time.Now()
 		os.Setenv("VERIF_DIR", "/nonexistent")
 		c := core.NewCtx(prop.id, "quick")
 		r := tsrc.NewRunner(c, prop.oracle, prop.what)
+		r.Weaker = prop.weaker
 		r.All(progs)
 		var keys []string
 		for k := range r.Found {
@@ -142,10 +158,13 @@ func main() {
 			}
 		}
 		if *out != "" {
-			b, _ := json.MarshalIndent(map[string]any{"findings": findings}, "", " ")
-			b = []byte(strings.NewReplacer(`<`, "<", `>`, ">", `&`, "&").Replace(string(b)))
+			var sb strings.Builder
+			enc := json.NewEncoder(&sb)
+			enc.SetEscapeHTML(false)
+			enc.SetIndent("", " ")
+			_ = enc.Encode(map[string]any{"findings": findings})
 			p := filepath.Join(*out, prop.id+"-known-findings.json")
-			if err := os.WriteFile(p, append(b, '\n'), 0o644); err != nil {
+			if err := os.WriteFile(p, []byte(sb.String()), 0o644); err != nil {
 				fmt.Println("write:", err)
 			} else {
 				fmt.Printf("  wrote %d findings to %s\n", len(findings), p)
